@@ -139,6 +139,11 @@ func init() {
 				return mkInt(64, 0)
 			}
 			return mkInt(64, uint64(m.n))
+		case reflect.Chan:
+			if c, _ := v.V.(*ChanV); c != nil {
+				return mkInt(64, uint64(len(c.buf)))
+			}
+			return mkInt(64, 0)
 		}
 		e.reflectPanic(fmt.Sprintf("call of reflect.Value.Len on %v Value", e.rvKind(v)))
 		return nil
@@ -351,6 +356,12 @@ func init() {
 			return Bool{V: x.Nil}
 		case Iface:
 			return Bool{V: x.T == nil}
+		case *ChanV:
+			return Bool{V: x == nil}
+		case *ssa.Function:
+			return Bool{V: x == nil}
+		case *Closure:
+			return Bool{V: x == nil}
 		}
 		e.reflectPanic("call of reflect.Value.IsNil on " + e.rvKind(v).String() + " Value")
 		return nil
